@@ -15,6 +15,7 @@ structure DState where
   tv : St UInt64
   ts : Store
   tp : RState
+  wrapped : Bool := false    -- `tv store wrapped|fmt`: the harness's store reports its errors wrapped
 
 def dinit : DState := { tv := fresh none, ts := [], tp := rinit }
 
@@ -26,14 +27,14 @@ def parseCsv (s : String) : Option (List Nat) :=
 statement language's semantics (`Hive/Gen/C06_Code.lean`, re-translated from the working tree on every run).  By
 `C06_code_refines_model` the two agree; if a changed source breaks that proof, the disagreement shows up here on
 the concrete inputs of the run (and the real code is then compared with both). -/
-def stepLineBoth (s : St UInt64) (toks : List String) : St UInt64 × String :=
+def stepLineBoth (w : Bool) (s : St UInt64) (toks : List String) : St UInt64 × String :=
   match toks with
   | "init" :: _ => stepLine s toks
   | _ =>
     match parseOp toks with
     | some (op, F) =>
       let r := step codec64 s op F
-      let g := Code.execOp Hive.Gen.C06Code.prog codec64 s op F
+      let g := Code.execOpW w Hive.Gen.C06Code.prog codec64 s op F
       let a := showRes r
       let b := showRes g
       (r.st, if a == b then a else a ++ " [translated-code: " ++ b ++ "]")
@@ -42,7 +43,9 @@ def stepLineBoth (s : St UInt64) (toks : List String) : St UInt64 × String :=
 def dstepLine (s : DState) (toks : List String) : DState × String :=
   match toks with
   | [_, "codec", _] => (s, "ok")   -- codec flavour of the harness (allocating / scratch buffers): no semantic content
-  | "tv" :: rest => let (tv', o) := stepLineBoth s.tv rest; ({ s with tv := tv' }, o)
+  | ["tv", "store", fl] => ({ s with wrapped := fl != "plain" }, "ok")
+  | [_, "store", _] => (s, "ok")
+  | "tv" :: rest => let (tv', o) := stepLineBoth s.wrapped s.tv rest; ({ s with tv := tv' }, o)
   | "tp" :: rest => let (tp', o) := rstepLine s.tp rest; ({ s with tp := tp' }, o)
   | "ts" :: rest => let (ts', o) := sstepLine s.ts rest; ({ s with ts := ts' }, o)
   | ["conc", "counter", final, incs, gets] =>
